@@ -397,3 +397,36 @@ pub fn stash_pass(p: Pass) {
 pub fn take_stashed_pass() -> Option<Pass> {
     STASH.with(|s| s.borrow_mut().take())
 }
+
+static HINT_PATH: std::sync::Mutex<Option<std::path::PathBuf>> = std::sync::Mutex::new(None);
+
+pub fn set_hint_path(p: Option<std::path::PathBuf>) {
+    if let Ok(mut g) = HINT_PATH.lock() {
+        *g = p;
+    }
+}
+
+/// For checks that run a family of inner evaluations per case (C15): note which inner evaluation
+/// is about to run. If the shard process then aborts or hangs, the orchestrator re-runs only that
+/// one (it stores the number in the case's `only` field).
+pub fn set_case_hint(i: u64) {
+    if let Ok(g) = HINT_PATH.lock() {
+        if let Some(p) = g.as_ref() {
+            let _ = std::fs::write(p, i.to_string());
+        }
+    }
+}
+
+static INNER_SKIP: std::sync::Mutex<Option<u64>> = std::sync::Mutex::new(None);
+
+pub fn set_inner_skip(v: Option<u64>) {
+    if let Ok(mut g) = INNER_SKIP.lock() {
+        *g = v;
+    }
+}
+
+/// After a restart behind a known abort/hang of inner evaluation `h` of the current case: `Some(h)`
+/// — the check resumes its family after `h`.
+pub fn inner_skip() -> Option<u64> {
+    INNER_SKIP.lock().ok().and_then(|g| *g)
+}
